@@ -5,5 +5,6 @@ cd "$(dirname "$0")"
 /venv/bin/python tools/extract.py >/dev/null
 /venv/bin/python tools/translate.py >/dev/null
 /venv/bin/python tools/translate_prog.py >/dev/null
+/venv/bin/python tools/translate_scene.py >/dev/null
 cd lean
 lake build
